@@ -26,7 +26,7 @@ RULE = ("hyp: sequence (N=6..14 with kappa defined and >=2 residues of one charg
         "in-window proposals accepted iff u < min(1, exp(g_old-g_new)), g += ln f and H += 1 at the occupied bin, at every scheduled check "
         "the model's H, g, f, niter equal the machine's and 'flat <=> every window bin >= criterion x mean' decides sqrt(f)/reset, stop iff "
         "f <= threshold; returned array, DOS.txt, DOS_local.txt, histogram_bins.txt, hlog.txt, glog.txt, seqlog.txt agree with that bookkeeping. "
-        "Non-trivial: run with >=1 accepted and >=1 rejected in-window proposal, >=1 out-of-window proposal and >=1 flat check that fired; "
+        "One case in six runs the same machine twice and replays the second run (which must start from g=0, H=0 like the first). Non-trivial: run with >=1 accepted and >=1 rejected in-window proposal, >=1 out-of-window proposal and >=1 flat check that fired; "
         "distinct by the whole configuration.")
 ASSUMPTIONS = ["structure assumed by the replay: one uniform draw selects the move, one decides acceptance (two draws of the loop's PRNG per step); "
                "a structural mismatch is reported as an instrumentation error (exit 2), not as a violation",
@@ -115,11 +115,21 @@ def run_observed(case):
                                                   flatcrit=case["crit"], convergence=float(np.exp(case["conv"])))
                 trace["machine"] = dict(nbins_actual=int(sp.WLM.nbins_actual), relevant_min=int(sp.WLM.relevant_min), relevant_max=int(sp.WLM.relevant_max),
                                         centres=[float(x) for x in sp.WLM.getBinCenters()])
+                base = 0
+                if case.get("second_run"):
+                    # the machine is run twice; the SECOND run is the one replayed (it must start from scratch like the first)
+                    sp.WLM.run()
+                    base = len(t.instances)
+                    for k in log:
+                        del log[k][:]
+                    trace["first_run_draws"] = t.draws
                 trace["result"] = np.asarray(sp.WLM.run(), dtype=float)
             except tape.Budget:
                 trace["cut"] = True
         trace["log"] = log
-        trace["loop_draws"] = list(t.instances[0].log) if t.instances else []
+        if case.get("second_run") and trace["cut"] and "first_run_draws" not in trace:
+            trace["first_run_cut"] = True
+        trace["loop_draws"] = list(t.instances[base].log) if len(t.instances) > base else []
         trace["n_instances"] = len(t.instances)
         for fn in ("DOS.txt", "DOS_local.txt", "hlog.txt", "glog.txt", "seqlog.txt", "histogram_bins.txt"):
             p = os.path.join(out, fn)
@@ -148,6 +158,8 @@ def nearest_bins(centres, k):
 def check(ctx, case):
     seq = case["seq"]
     trace = run_observed(case)
+    if trace.get("first_run_cut"):
+        raise Inconclusive()
     c = lambda cond, bucket, msg: ctx.check(cond, bucket, msg, case)      # noqa
     # ---------------------------------------------------------------- geometry
     binmin, binmax, nbins = geometry(case)
@@ -276,7 +288,7 @@ def check(ctx, case):
             ctx.fail("stopping", "the run continued after f=%r <= threshold %r (%d steps observed, %d explained by the rule)" % (float(f), thresh, len(index), t), case)
     # ---------------------------------------------------------------- outputs
     cl = ["M=%d" % M, "window:%s" % ("full" if nbins == M else "partial"), "period:%s" % ("1" if case["period"] == 1 else "2-9" if case["period"] < 10 else ">=10"),
-          "crit:%s" % ("0" if case["crit"] == 0 else ">0"), "cut" if trace["cut"] else "converged", "iterations:%d" % niter]
+          "crit:%s" % ("0" if case["crit"] == 0 else ">0"), "cut" if trace["cut"] else "converged", "iterations:%d" % niter] + (["second-run"] if case.get("second_run") else [])
     if not trace["cut"]:
         res = trace["result"]
         c(res is not None and res.shape == (2, M), "result-shape", "run() returned array of shape %r" % (None if res is None else res.shape,))
@@ -393,7 +405,12 @@ def hyp_case(draw, budget):
     period = draw(st.one_of(st.sampled_from([1, 1, 2, 5]), st.integers(10, 60)))
     crit = draw(st.sampled_from([0, 0, 0.1, 0.2, 0.3, 0.5, 0.7, 0.9]))
     conv = draw(st.sampled_from([0.6, 0.6, 0.3, 0.15, 0.08]))
-    return {"seq": seq, "M": M, "lo": lo, "nb": nb, "period": period, "crit": crit, "conv": conv, "tape": draw(st.integers(0, 2 ** 32 - 1)), "budget": budget}
+    case = {"seq": seq, "M": M, "lo": lo, "nb": nb, "period": period, "crit": crit, "conv": conv, "tape": draw(st.integers(0, 2 ** 32 - 1)), "budget": budget}
+    if draw(st.integers(0, 5)) == 0:
+        case["second_run"] = True
+        case["crit"] = 0          # so that the first run terminates
+        case["conv"] = 0.6
+    return case
 
 
 def parts(tier):
